@@ -368,7 +368,7 @@ class C10(System):
         k = min(n, 3)
         st.o_order = tuple(reversed(order[:k]))
         st.o_pos = tuple(reversed(range(k)))          # position in the main package of partner chemical j
-        st.ocs = None
+        st.ocs = None; st.oci = None; st.mo = None
         st.info = {}
         st.next_alias = 0
         # twin package: the SAME IDs in the same order, separately compiled, G1 and the user aliases mean other positions;
@@ -396,8 +396,16 @@ class C10(System):
         return st.mi3
 
     def _partner(self, st):
+        """the partner package (re-ordered subset, no aliases) and ONE persistent single-phase indexer on it: the source of the
+        cross-package operations, itself looked up with CAS tuples before and after them"""
         if st.ocs is None:
             st.ocs = make_package(st.o_order, [[] for _ in st.o_order], {})
+            st.oci = st.CI.blank('l', st.ocs)
+            mo = Model(st.o_order, ('l',), mass=st.m.mass)
+            for j, x in enumerate(self._partner_vals(st)):
+                mo.d[j] = x
+                if x: st.oci.data.dct[j] = x
+            st.mo = mo
         return st.ocs
 
     # ---- key alphabets -----------------------------------------------------------------------------------------------
@@ -527,6 +535,7 @@ class C10(System):
         for k in (s(p0), T(s(p0), s('G1')), T(s(P0), mixk), T(E, a1), T(s(p0), E), T(s(p0), cas_t)) + ((T(s(m.phases[0]), c0), T(E, cas_t)) if wide else ()):
             a.append(('get', 'mi', k))
         a.append(('get', 'mi2', T(s('l'), mixk)))
+        a.append(('get', 'oci', cas_t))          # the CAS tuple of the source's non-zero chemicals, looked up on the SOURCE package
         # the twin package (same IDs, G1 / aliases defined differently): same keys as on 'mi'
         a.append(('get', 'mi3', T(s(p0), s('G1')))); a.append(('get', 'mi3', a1)); a.append(('set', 'mi3', T(s(p0), s('G1')), ('sc', 2.5)))
         if wide:
@@ -576,6 +585,7 @@ class C10(System):
             a.append(('get', 'mi', k))
         a.append(('get', 'mi2', T(s('l'), g2k))); a.append(('get', 'mi2', s('l')))
         a.append(('get', 'mi3', T(s(p0), s('G1')))); a.append(('get', 'mi3', s('G1')))
+        a.append(('get', 'oci', cas_t))
         a.append(('set', 'ci', s('G1'), ('sc', 2.5)))
         a.append(('set', 'mi', T(s(p0), g2k), ('sc', 2.5)))
         a.append(('ov', 'mix', 'ci')); a.append(('ov', 'mix', 'mi'))
@@ -695,18 +705,19 @@ class C10(System):
         key = dec(k)
         if tgt == 'mi2': m = st.m2
         if tgt == 'mi3': self._twin(st); m = st.m3
-        ix = st.ci if tgt == 'ci' else st.mi if tgt == 'mi' else st.mi2 if tgt == 'mi2' else st.mi3
-        res = m.resolve('ci' if tgt == 'ci' else 'mi', k)
+        if tgt == 'oci': self._partner(st); m = st.mo
+        ix = st.ci if tgt == 'ci' else st.mi if tgt == 'mi' else st.mi2 if tgt == 'mi2' else st.mi3 if tgt == 'mi3' else st.oci
+        res = m.resolve('ci' if tgt in ('ci', 'oci') else 'mi', k)
         form = res[0] if res[0] != 'undefined' else 'undefined-' + res[1]
         c1, c2 = self._caches(st)
         hkey = self._hashable(key)
-        info['hit'] = (hkey in c2) if tgt == 'mi' else (hkey in st.mi2._index_cache) if tgt == 'mi2' else (hkey in st.mi3._index_cache) if tgt == 'mi3' else (hkey in c1)
+        info['hit'] = (hkey in c2) if tgt == 'mi' else (hkey in st.mi2._index_cache) if tgt == 'mi2' else (hkey in st.mi3._index_cache) if tgt == 'mi3' else (hkey in st.ocs._index_cache) if tgt == 'oci' else (hkey in c1)
         n1, n2 = len(c1), len(c2)
         first1 = next(iter(c1), None)
         match = dict(op=op, target=tgt, form=form, value=(v[0] if v else None))
         # differential twin on cold caches, only meaningful after a history
         fresh = None
-        if self.layer != 'keys' and tgt != 'mi3':
+        if self.layer != 'keys' and tgt not in ('mi3', 'oci'):
             fcs, fci, fmi = self._fresh(st)
             if tgt == 'mi2':
                 fmi = st.MI.blank(m.phases, fcs)
@@ -744,8 +755,8 @@ class C10(System):
             raise Violation('ambiguous-write-accepted', f'set mi[{key!r}] without a phase returned normally', match=match)
         # -- values
         _, rows, sel = res
-        vec = m.d if tgt == 'ci' else m.D
-        if op == 'set' and tgt == 'mi2': raise ValueError('mi2 is read only in this harness')
+        vec = m.d if tgt in ('ci', 'oci') else m.D
+        if op == 'set' and tgt in ('mi2', 'oci'): raise ValueError('mi2 is read only in this harness')
         if op == 'get':
             exp = self._expected_get(m, vec, rows, sel)
             got = real[1]
@@ -810,6 +821,8 @@ class C10(System):
             raise Violation(clause, f'{what}: single-phase data are {a.tolist()!r}, expected {m.d.tolist()!r}', match=dict(match, data='ci'))
         if not same_data(b, m.D):
             raise Violation(clause, f'{what}: multi-phase data are {b.tolist()!r}, expected {m.D.tolist()!r}', match=dict(match, data='mi'))
+        if st.ocs is not None and not same_data(arr(st.oci.data), st.mo.d):
+            raise Violation(clause, f'{what}: data of the partner (source) indexer are {arr(st.oci.data).tolist()!r}, expected {st.mo.d.tolist()!r}', match=dict(match, data='oci'))
         if st.mi3 is not None and not same_data(arr(st.mi3.data), st.m3.D):
             raise Violation(clause, f'{what}: data of the indexer on the twin package are {arr(st.mi3.data).tolist()!r}, expected {st.m3.D.tolist()!r}', match=dict(match, data='mi3'))
         if not same_data(arr(st.mi2.data), st.m2.D):
@@ -876,9 +889,7 @@ class C10(System):
         t = fixtures.tmo()
         ocs = self._partner(st)
         vals = self._partner_vals(st)
-        oci = st.CI.blank('l', ocs)
-        for j, x in enumerate(vals):
-            if x: oci.data.dct[j] = x
+        oci = st.oci
         add = np.zeros(m.N)
         for j, x in enumerate(vals): add[st.o_pos[j]] = x
         c1, _ = self._caches(st)
@@ -1188,11 +1199,141 @@ class C10Struct(System):
         return repr((a[0], a[1], obs, st.info.get('hit'), tuple(sorted((n, tuple(m.phases)) for n, m in st.m.items()))))[:300]
 
 
+NAME_POOL = ('Water', 'Ethanol', 'DimethylEther', 'Propanol', 'Isopropanol', 'Acetone', 'Propanal', '1-Butanol', '2-Butanol', 'Isobutanol', 'DiethylEther')
+_nbase = {}
+def _named(ID):
+    if ID not in _nbase: _nbase[ID] = fixtures.tmo().Chemical(ID, cache=True)
+    return _nbase[ID]
+
+
+class C10Names(System):
+    """Every name the LIBRARY attaches to a chemical (ID, CAS, formula, common name, IUPAC names, aliases), on packages that contain isomers
+    sharing a formula (Ethanol / DimethylEther: C2H6O; 1-/2-Propanol: C3H8O; Acetone / Propanal: C3H6O; four C4H10O) and a user alias
+    given to two chemicals: a name of exactly one chemical resolves to that chemical's position (read and write, single- and multi-phase),
+    a name shared by several chemicals is undefined (UndefinedChemicalAlias) -- it must never silently resolve to one of them."""
+    name = 'c10.names'
+    nontrivial_per_config = True
+    def warm(self):
+        for i in NAME_POOL: _named(i)
+    def depth(self, tier): return 1
+    def reset_globals(self): fixtures.reset_globals()
+
+    def configs(self, tier, seed):
+        base = [('Water', 'Ethanol', 'DimethylEther'), ('DimethylEther', 'Water', 'Ethanol'),
+                ('Isopropanol', 'Acetone', 'Propanol', 'Propanal'), ('Propanal', 'Propanol', 'Acetone', 'Isopropanol'),
+                ('1-Butanol', 'DiethylEther', 'Water', '2-Butanol', 'Isobutanol')]
+        if tier != 'quick':
+            base += [tuple(p) for p in itertools.permutations(('Ethanol', 'DimethylEther', 'Propanol', 'Isopropanol'))]
+            base += [('Isobutanol', '2-Butanol', 'Ethanol', 'DiethylEther', '1-Butanol', 'DimethylEther', 'Propanal', 'Acetone')]
+        out = []
+        for b in base:
+            if b not in out: out.append(b)
+        return out
+
+    def _names(self, IDs):
+        """my own table: name -> set of positions that carry it"""
+        table = {}
+        per = []
+        for p, ID in enumerate(IDs):
+            c = _named(ID)
+            iupac = c.iupac_name or ()
+            if isinstance(iupac, str): iupac = (iupac,)
+            mine = {ID, c.CAS, c.formula, c.common_name, *iupac, 'u_' + ID, 'shared_user_alias' if p < 2 else None}
+            mine = {x for x in mine if x}
+            per.append(sorted(mine))
+            for x in mine: table.setdefault(x, set()).add(p)
+        return table, per
+
+    def build(self, config):
+        t = fixtures.tmo()
+        st = St(); st.config = config; st.info = {}
+        IDs = config
+        st.table, st.per = self._names(IDs)
+        st.broken = None
+        try:
+            chems = []
+            for p, ID in enumerate(IDs):
+                c = _named(ID)
+                n = c.copy(ID, CAS=c.CAS, _iupac_name=c.iupac_name, _common_name=c.common_name)
+                n.aliases.add('u_' + ID)
+                if p < 2: n.aliases.add('shared_user_alias')
+                chems.append(n)
+            cs = t.Chemicals(chems); cs.compile()
+        except Exception as e:
+            st.broken = Violation('unexpected-exception', f'compiling {IDs!r} raised {type(e).__name__}: {e}', match=dict(op='build', exc=type(e).__name__)); return st
+        st.cs = cs
+        N = len(IDs)
+        st.d = np.array([VALS[(i + 1) % len(VALS)] or 0.375 for i in range(N)])
+        st.D = np.array([[VALS[(i + 3 * r + 2) % len(VALS)] or 1.5 for i in range(N)] for r in range(2)])
+        st.d = st.d + np.arange(N) * 16.0; st.D = st.D + np.arange(N) * 16.0          # every position holds a distinct value
+        st.ci = t.indexer.ChemicalMolarFlowIndexer.blank('l', cs)
+        st.mi = t.indexer.MolarFlowIndexer.blank(('g', 'l'), cs)
+        for i in range(N):
+            st.ci.data.dct[i] = float(st.d[i])
+            for r in range(2): st.mi.data.rows[r].dct[i] = float(st.D[r, i])
+        return st
+
+    def actions(self, st):
+        acts = []
+        for name in sorted(st.table):
+            for form in ('ci', 'mi-sum', 'mi-l', 'ci-set', 'mi-l-set', 'index'):
+                acts.append((form, name))
+        return acts
+
+    def step(self, st, a):
+        form, name = a
+        from thermosteam.exceptions import UndefinedChemicalAlias
+        owners = sorted(st.table[name])
+        shared = len(owners) > 1
+        kind = 'shared' if shared else 'unique'
+        st.info = dict(shared=shared)
+        match = dict(op=form, name=kind)
+        try:
+            if form == 'ci': got = st.ci[name]; exp = st.d
+            elif form == 'mi-sum': got = st.mi[name]; exp = st.D.sum(0)
+            elif form == 'mi-l': got = st.mi['l', name]; exp = st.D[1]
+            elif form == 'index': got = st.cs.index(name); exp = None
+            elif form == 'ci-set': st.ci[name] = 1024.0; got = None
+            else: st.mi['l', name] = 1024.0; got = None
+        except UndefinedChemicalAlias:
+            if shared: raise Rejected('shared-name:undefined', cut=False)
+            raise Violation('name-resolution', f'{name!r} is a name of the chemical at position {owners[0]} ({st.config[owners[0]]}) only, but {form} raises UndefinedChemicalAlias',
+                            match=dict(match, kind='unique-undefined'))
+        except Exception as e:
+            raise Violation('unexpected-exception', f'{form} with name {name!r} raised {type(e).__name__}: {e}', match=dict(match, exc=type(e).__name__))
+        if shared:
+            raise Violation('name-resolution', f'{name!r} is a name of the chemicals at positions {owners} ({[st.config[i] for i in owners]}) but {form} resolved it '
+                            f'{"to " + repr(got) if got is not None else "and wrote through it"} instead of leaving it undefined', match=dict(match, kind='shared-resolves'))
+        p = owners[0]
+        if form == 'index':
+            if got != p: raise Violation('name-resolution', f'chemicals.index({name!r}) = {got}, the chemical sits at {p}', match=dict(match, kind='position'))
+        elif got is not None:
+            if not (np.ndim(got) == 0 and float(got) == float(exp[p])):
+                raise Violation('get-value', f'{form}[{name!r}] returned {got!r}, position {p} holds {exp[p]!r}', match=match)
+        else:
+            if form == 'ci-set': st.d[p] = 1024.0
+            else: st.D[1, p] = 1024.0
+        if not (same_data(arr(st.ci.data), st.d) and same_data(arr(st.mi.data), st.D)):
+            raise Violation('set-entries' if form.endswith('set') else 'data-changed-by-read', f'after {form} with {name!r} (position {p}): data are {arr(st.ci.data).tolist()!r} / '
+                            f'{arr(st.mi.data).tolist()!r}', match=match)
+        return (form, kind)
+
+    def invariants(self, st):
+        return [st.broken] if st.broken is not None else []
+    def canon(self, st):
+        if st.broken is not None: return ('broken', st.config)
+        return (st.config, tuple(st.d.tolist()), tuple(map(tuple, st.D.tolist())), tuple((repr(k), repr(v)) for k, v in st.cs._index_cache.items()),
+                tuple((repr(k), repr(v)) for k, v in st.mi._index_cache.items()))
+    def nontrivial(self, st, a, obs): return True
+    def outcome(self, st, a, obs): return repr((a[0], obs, st.info.get('shared')))
+
+
 SYSTEMS = [
     C10('c10.keys', 'keys', 1, 1),
     C10('c10.history', 'history', 3, 3, tcap_q=60, tcap_t=120),
-    C10('c10.history4', 'history', 2, 4, tcap_q=20, tcap_t=520, one_config=True),
+    C10('c10.history4', 'history', 2, 4, tcap_q=20, tcap_t=700, one_config=True),
     C10('c10.wide', 'wide', 2, 3, tcap_q=30, tcap_t=300),
     C10('c10.evict', 'evict', 2, 3, tcap_q=40, tcap_t=260),
     C10Struct(),
+    C10Names(),
 ]
